@@ -6,7 +6,7 @@
                 applying the real function to its own result).
    kind "doc":  [id, kind, len_off, len_on, nl_same, diffs]  an (option off, option on) pair of reformat_text outputs:
                 diffs = every position where the two texts differ, as [c |-> class in off, d |-> class in on, prot |-> the
-                position lies in a protected span of the off text].  Decided (C08): same length, same line breaks, every
+                position lies in a protected span of the off text, seg |-> number of the scope of the position].  Decided (C08): same length, same line breaks, every
                 difference turns a straight quote into a curly quote of its family outside protected spans. *)
 EXTENDS Typography, IOUtils
 Traces == JsonDeserialize(IOEnv.TRACE_FILE)
@@ -16,8 +16,17 @@ TraceInit == /\ tid \in 1..Len(Traces) /\ inp = (IF Traces[tid].kind = "str" THE
 TraceSpec == TraceInit /\ [][Next /\ UNCHANGED tid]_<<vars, tid>>
 StrProp == IF Machine = "quotes" THEN QuoteProp(TR.s, TR.t) /\ TagsUntouched(TR.s, TR.t)
            ELSE EllipsisProp(TR.s, TR.t) /\ OnlyThreeDotRuns(TR.s, TR.t) /\ TR.t2 = TR.t
+\* quotes are only paired within one paragraph: a converted opening quote and the next converted closing quote of its family lie in the
+\* same scope (seg = number of the paragraph / heading / list item / table cell the position belongs to); the doc-level form of the third
+\* conjunct of QuoteProp
+Closer(d) == IF d = "L2" THEN "R2" ELSE "R1"
+PairedInScope(ds) == \A i \in 1..Len(ds) : ds[i].d \in {"L2", "L1"} =>
+                        /\ (TR.trunc \/ \E j \in (i + 1)..Len(ds) : ds[j].d = Closer(ds[i].d))            \* an opening quote is never converted alone
+                        /\ \A j \in (i + 1)..Len(ds) : (ds[j].d = Closer(ds[i].d) /\ \A m \in (i + 1)..(j - 1) : ds[m].d # Closer(ds[i].d))
+                                                        => ds[j].seg = ds[i].seg
 DocProp == /\ TR.len_off = TR.len_on /\ TR.nl_same
            /\ \A i \in 1..Len(TR.diffs) : Family(TR.diffs[i].c, TR.diffs[i].d) /\ ~TR.diffs[i].prot
+           /\ PairedInScope(TR.diffs)
 \* kind "tree" (C09): [id, kind, a, b]  preorder node strings of the normalised trees of the (ellipses off, ellipses on) outputs, text
 \* nodes passed through the inverse mapping (ellipsis -> three dots, whitespace touching a dot run erased, runs collapsed):
 \* structure, literal spans and all other text must be identical.
